@@ -386,4 +386,8 @@ class TraverseAddDiffIo(Contract):
                 z3.And(N.member[d], requested(X, in_names, d, "trs"), requested(O, out_names, d, "trt")),
                 z3.And(r.member[d], z3.ForAll([k], z3.And(z3.Implies(z3.And(name_in(X, k), in_names(d)[k]), lst_has(ins(r, d), k)),
                                                           z3.Implies(z3.And(name_in(O, k), out_names(d)[k]), lst_has(outs(r, d), k)))))))),
-        ]
+        ] + [(f"selection-applied-to-the-disciplines:{lb}", f) for lb, f in applied(c, r, lambda x: _as_bool(c.old.add_differentiated_ios))]
+
+
+def _as_bool(v):
+    return z3.BoolVal(v) if isinstance(v, bool) else v
